@@ -50,7 +50,7 @@ CLAIMS = {
         "text": "Kernel-checked over every ordered field, all shapes N,M,S, all user models, weights and every SVD routine satisfying SVDSpec: whenever coefficients are present after set_params they satisfy the "
                 "truncated normal equations for all right-hand sides (c01_normal_eq), hence minimise ||y_s - A_eps c|| per column (c01_minimises), are the minimum-norm minimiser (c01_min_norm), "
                 "minimise the ORIGINAL weighted problem whenever only exactly-zero singular values are truncated (c01_original_problem), are the UNIQUE minimiser when W*Phi has trivial kernel (c01_unique), depend linearly on the data (c01_linear); a negative threshold never yields coefficients "
-                "(c01_negative_eps_absent). SVD::solve is transcribed from nalgebra, not assumed. Tie: coefficients of the real problem vs the model on Float after build and every update, plus the normal-equation / minimum-norm / finiteness monitors on the implementation's own output.",
+                "(c01_negative_eps_absent). SVD::solve is transcribed from nalgebra, not assumed. Tie: coefficients of the real problem vs the model on Float after build and every update, plus the normal-equation / minimum-norm / finiteness monitors on the implementation's own output. BASIS ORDER (Props/C01Order.lean): listing the basis functions in another order reorders the coefficients with them, for any two SVD routines used on the two orderings (c01_basis_order, via uniqueness at full column rank); (W Phi) c is the sum coefficient_j x column_j (c01_product_by_function); the truncated solve divides only by singular values strictly above the threshold, hence strictly positive (c01_divisors).",
         "note": "Trusted: Lean kernel; SVDSpec of nalgebra's SVD (assumed, numerically monitored through the comparison); floating point is modelled not verified (tolerances c*u*kappa^e computed per case); transcription Core/Problem.lean validated by the stream.",
     },
     "C02": {
